@@ -270,7 +270,9 @@ func (p *Pool) submit(o *Obligation, done func(*Obligation)) {
 		if r.status != "unsat" {
 			o.Model = r.output
 		}
-		o.Query = "" // free memory
+		if r.status == "unsat" || r.status == "sat" {
+			o.Query = "" // free memory
+		}
 		done(o)
 	}()
 }
